@@ -1686,3 +1686,31 @@ def r20_5(ctx):
     else:
         ctx.bad("iphc::Repr::buffer_len|hop-limit-table", f"IphcRepr::buffer_len() treats hop limits {sorted(rd)} as compressed while set_hop_limit() compresses {sorted(wr)}: for the others the "
                 "declared header length and the emitted one differ by an octet, and everything behind the IPHC header is written / read at the wrong place", body=bl_)
+
+
+@rule('R11.9', ['C11', 'C16', 'C10'], floor=1, clause='a destination counts as one of the interface\'s solicited-node groups only when it equals the solicited-node multicast address derived from one of the interface\'s addresses (all 128 bits: the ff02::1:ff00:0/104 prefix and the low 24 bits)')
+def r11_9(ctx):
+    F = ctx.F
+    cands = [b for k, b in F.bodies.items() if k.endswith('::has_solicited_node') and '::test' not in k]
+    ctx.need(cands, "InterfaceInner::has_solicited_node")
+    b = cands[0]
+    fam = [b] + list(F.closures_of(b.key))
+    ls = set()
+    for bb in fam:
+        try:
+            ls |= leafs(ret_origin(F, bb))
+        except Exception:
+            pass
+        for bi, bl in enumerate(bb.blocks):
+            if bl['cl'] or bl['t'][0] != 'switch':
+                continue
+            for tb, lab, f in cond_facts(F, bb, bi):
+                for x in f[1:]:
+                    if isinstance(x, tuple):
+                        ls |= leafs(x)
+    full = any(l.startswith('C:') and (l.endswith('::solicited_node') or l.endswith('::is_solicited_node_multicast')) for l in ls)
+    if full:
+        ctx.ok(('has_solicited_node', 'full address'), sample=dict(fn='has_solicited_node', compares='addr == own_address.solicited_node()'))
+    else:
+        ctx.bad("has_solicited_node|partial-compare", "has_solicited_node() decides from a few low-order octets only, without the solicited-node prefix: any destination - a foreign unicast "
+                "address included - whose last octets equal those of one of our addresses is accepted as ours (and answered, with the foreign address as source)", body=b)
